@@ -48,6 +48,15 @@ Fixpoint has_prefix (s pre : str) {struct pre} : bool :=
 Definition trim_slash (s : str) : str :=
   match s with c :: r => if c =? slash then r else s | [] => [] end.
 
+(** Byte-wise string order (Go's [<] on strings). *)
+Fixpoint str_ltb (a b : str) : bool :=
+  match a, b with
+  | _, [] => false
+  | [], _ :: _ => true
+  | x :: a', y :: b' => (x <? y) || ((x =? y) && str_ltb a' b')
+  end.
+
+
 (** ** Splitting on '/' *)
 
 Fixpoint split1 (s : str) : str * list str :=
@@ -166,6 +175,11 @@ Fixpoint strip_common (b t : list str) : list str * list str :=
 Fixpoint repeat_seg (s : str) (n : nat) : list str :=
   match n with O => [] | S n' => s :: repeat_seg s n' end.
 
+(** Elements of the cleaned target as [Rel] walks them: only the base has
+    "." turned into the empty path, so a target "." is one element ".". *)
+Definition targ_segs (ct : str) : list str :=
+  if str_eqb ct s_dot then [s_dot] else nsegs ct.
+
 (** [filepath.Rel base targ] on unix; [None] = "can't make relative". *)
 Definition filepath_rel (base targ : str) : option str :=
   let cb := clean base in
@@ -173,13 +187,13 @@ Definition filepath_rel (base targ : str) : option str :=
   if str_eqb ct cb then Some s_dot
   else if negb (Bool.eqb (is_rooted cb) (is_rooted ct)) then None
   else
-    let '(b', t') := strip_common (nsegs cb) (nsegs ct) in
-    match b', t' with
-    | [], _ => Some (join_slash t')
-    | x :: _, _ :: _ =>
+    let '(b', t') := strip_common (nsegs cb) (targ_segs ct) in
+    match b' with
+    | [] => Some (join_slash t')
+    | x :: _ =>
+        (* the next base element is "..": no way to name it from below *)
         if str_eqb x s_dotdot then None
         else Some (join_slash (repeat_seg s_dotdot (length b') ++ t'))
-    | _ :: _, [] => Some (join_slash (repeat_seg s_dotdot (length b')))
     end.
 
 (** The containment test used by the repaired extractors:
@@ -877,6 +891,17 @@ Ltac dotdot_head_contra H :=
 
 (** What a passed containment test says, in segments: the target's clean
     elements are the directory's followed by real elements only. *)
+Lemma shaped_head_not_dot r x l : shaped r (x :: l) -> str_eqb x s_dot = false.
+Proof.
+  destruct r; cbn.
+  - intros H. apply andb_true_iff in H as [H _]. unfold normalb in H.
+    apply andb_true_iff in H as [H _]. apply andb_true_iff in H as [_ H]. now apply negb_true_iff in H.
+  - intros (k & ns & E & Hn). destruct k as [|k]; cbn in E.
+    + subst ns. cbn in Hn. apply andb_true_iff in Hn as [H _]. unfold normalb in H.
+      apply andb_true_iff in H as [H _]. apply andb_true_iff in H as [_ H]. now apply negb_true_iff in H.
+    + injection E as -> _. reflexivity.
+Qed.
+
 Theorem in_dir_segments dir p :
   in_dir dir p = true ->
   is_rooted (clean p) = is_rooted (clean dir) /\
@@ -888,6 +913,15 @@ Proof.
     exists []. now rewrite app_nil_r. }
   destruct (Bool.eqb (is_rooted (clean dir)) (is_rooted (clean p))) eqn:Er; cbn [negb]; [|discriminate].
   apply Bool.eqb_prop in Er.
+  unfold targ_segs. destruct (str_eqb (clean p) s_dot) eqn:Edot.
+  { (* the target is ".": every other directory is refused *)
+    apply str_eqb_eq in Edot. intros H. exfalso.
+    pose proof (nsegs_shaped (clean dir)) as Hs. rewrite Er, Edot in Hs. cbn [is_rooted s_dot N.eqb] in Hs.
+    destruct (nsegs (clean dir)) as [|x l] eqn:En.
+    - apply str_eqb_neq in Eeq. apply Eeq. rewrite Edot.
+      rewrite <- (clean_idem dir), (clean_render (clean dir)), En, Er, Edot. reflexivity.
+    - cbn [strip_common] in H. rewrite (shaped_head_not_dot false x l Hs) in H.
+      destruct (str_eqb x s_dotdot); [discriminate|]. dotdot_head_contra H. }
   destruct (strip_common (nsegs (clean dir)) (nsegs (clean p))) as [b' t'] eqn:Es.
   destruct (strip_common_spec _ _ _ _ Es) as (c & Eb & Et).
   intros H. split; [now symmetry|].
@@ -909,9 +943,7 @@ Proof.
            apply andb_true_iff in Hn as [_ Hn]. rewrite forallb_app in Hn.
            now apply andb_true_iff in Hn as [_ Hn].
         -- injection E as _ E. now apply (IH k).
-  - exfalso. destruct t' as [|y t'].
-    + dotdot_head_contra H.
-    + destruct (str_eqb x s_dotdot); [discriminate|]. dotdot_head_contra H.
+  - exfalso. destruct (str_eqb x s_dotdot); [discriminate|]. dotdot_head_contra H.
 Qed.
 
 (** A target that passes the test resolves beneath the directory. *)
@@ -925,4 +957,188 @@ Proof.
   injection Hd as <-. injection Hp as <-. rewrite Hr, E.
   rewrite norm_from_app, (norm_from_normal true _ rest Hn), rev_app_distr, rev_involutive.
   apply is_prefix_app.
+Qed.
+
+(** *** Byte-wise order *)
+
+Lemma str_ltb_irrefl a : str_ltb a a = false.
+Proof.
+  induction a as [|x a IH]; [reflexivity|]. cbn. rewrite N.ltb_irrefl, N.eqb_refl, IH. reflexivity.
+Qed.
+
+Lemma str_ltb_trans a b c : str_ltb a b = true -> str_ltb b c = true -> str_ltb a c = true.
+Proof.
+  revert b c; induction a as [|x a IH]; intros [|y b] [|z c]; cbn; try discriminate; try reflexivity.
+  intros H1 H2.
+  apply orb_true_iff in H1. apply orb_true_iff in H2. apply orb_true_iff.
+  destruct H1 as [H1|H1], H2 as [H2|H2].
+  - left. apply N.ltb_lt in H1, H2. apply N.ltb_lt. lia.
+  - apply andb_true_iff in H2 as [E _]. apply N.eqb_eq in E. subst. now left.
+  - apply andb_true_iff in H1 as [E _]. apply N.eqb_eq in E. subst. now left.
+  - apply andb_true_iff in H1 as [E1 H1]. apply andb_true_iff in H2 as [E2 H2].
+    apply N.eqb_eq in E1, E2. subst. right. rewrite N.eqb_refl. cbn. eapply IH; eassumption.
+Qed.
+
+Lemma str_trichotomy a b :
+  str_ltb a b = false -> str_eqb a b = false -> str_ltb b a = true.
+Proof.
+  revert b; induction a as [|x a IH]; intros [|y b]; cbn; try discriminate; try reflexivity.
+  intros H1 H2. apply orb_false_iff in H1 as [L H1].
+  apply N.ltb_ge in L.
+  destruct (x =? y) eqn:E.
+  - apply N.eqb_eq in E. subst y. cbn in H1, H2. rewrite N.eqb_refl. cbn.
+    rewrite (IH b H1 H2). apply orb_true_r.
+  - apply N.eqb_neq in E. assert (Hlt : y < x) by lia. apply N.ltb_lt in Hlt. now rewrite Hlt.
+Qed.
+
+
+(** *** More on Dir, Join and the containment test (used by the round trip) *)
+
+Lemma clean_eq_of_nsegs a b :
+  is_rooted a = is_rooted b -> nsegs a = nsegs b -> clean a = clean b.
+Proof. intros R E. now rewrite !clean_render, R, E. Qed.
+
+(** The directory of a path, one cleaning step before the path itself. *)
+Lemma resolve_dir_of_step cwd p k :
+  resolve cwd p = Some k ->
+  exists S, resolve cwd (dir_of p) = Some (rev S) /\
+            k = rev (clean_step true S (last (split_slash p) [])).
+Proof.
+  intros Hk. unfold dir_of.
+  destruct (upto_last_slash_split p) as (lst & Hl & Hs & Hu).
+  destruct Hu as [Hu|[pre Hu]]; rewrite Hu in *.
+  - cbn [app] in Hs. subst lst. exists (rev cwd). split.
+    { unfold resolve. cbn. reflexivity. }
+    unfold resolve in Hk. destruct p as [|c p']; [discriminate|]. injection Hk as <-.
+    assert (R : (c =? slash) = false).
+    { cbn in Hl. apply andb_true_iff in Hl as [Hc _]. now apply negb_true_iff in Hc. }
+    cbn [is_rooted]. rewrite R, split_noslash by exact Hl. reflexivity.
+  - assert (Hune : pre ++ [slash] <> []) by (destruct pre; discriminate).
+    rewrite resolve_clean by exact Hune.
+    assert (R : is_rooted p = is_rooted (pre ++ [slash])).
+    { rewrite Hs. apply is_rooted_app. exact Hune. }
+    assert (Hp : p <> []) by (rewrite Hs; destruct pre; discriminate).
+    rewrite (resolve_nonempty cwd p Hp) in Hk. injection Hk as <-.
+    rewrite (resolve_nonempty cwd _ Hune). rewrite R.
+    set (st0 := if is_rooted (pre ++ [slash]) then [] else rev cwd).
+    exists (norm_from true st0 (split_slash pre)). split.
+    + now rewrite split_slash_snoc_slash, norm_from_snoc_empty.
+    + rewrite Hs, <- app_assoc. cbn [app]. rewrite split_slash_app_slash.
+      rewrite norm_from_app, (split_noslash lst Hl). cbn [norm_from fold_left].
+      now rewrite last_last.
+Qed.
+
+Lemma resolve_dir_of_parent cwd p k x :
+  resolve cwd p = Some (k ++ [x]) ->
+  normalb (last (split_slash p) []) = true ->
+  resolve cwd (dir_of p) = Some k.
+Proof.
+  intros Hk Hn. destruct (resolve_dir_of_step _ _ _ Hk) as (S & Hd & E).
+  rewrite clean_step_normal in E by exact Hn. cbn [rev] in E.
+  apply app_inj_tail in E as [E _]. now rewrite Hd, <- E.
+Qed.
+
+Lemma last_split_render r l :
+  l <> [] -> forallb noslashb l = true -> shaped r l ->
+  last (split_slash (render r l)) [] = last l [].
+Proof.
+  intros Hne Hn Hs. destruct r; cbn [render].
+  - rewrite split_slash_cons_slash, split_join by assumption.
+    destruct l; [congruence|reflexivity].
+  - destruct l as [|x l]; [congruence|]. now rewrite split_join by (discriminate || assumption).
+Qed.
+
+Lemma strip_common_app a b : strip_common a (a ++ b) = ([], b).
+Proof. induction a as [|x a IH]; cbn; [now destruct b|]. now rewrite str_eqb_refl. Qed.
+
+Lemma join_good_not_dotdot k rest :
+  goodb k = true -> forallb noslashb rest = true ->
+  str_eqb (join_slash (k :: rest)) s_dotdot = false /\
+  has_prefix (join_slash (k :: rest)) (s_dotdot ++ [slash]) = false.
+Proof.
+  intros Hk Hr. unfold goodb in Hk. apply andb_true_iff in Hk as [Hn Hs].
+  assert (Hl : forallb noslashb (k :: rest) = true) by (cbn; now rewrite Hs, Hr).
+  pose proof (split_join (k :: rest) ltac:(discriminate) Hl) as E.
+  pose proof (normalb_not_dotdot k Hn) as Hd.
+  split.
+  - destruct (str_eqb (join_slash (k :: rest)) s_dotdot) eqn:Eq; [|reflexivity].
+    apply str_eqb_eq in Eq. rewrite Eq in E. cbn in E. injection E as E _. subst k. discriminate.
+  - destruct (has_prefix (join_slash (k :: rest)) (s_dotdot ++ [slash])) eqn:Eq; [|reflexivity].
+    apply has_prefix_spec in Eq as [r Eq]. rewrite Eq in E.
+    rewrite <- app_assoc in E. cbn [app] in E.
+    change (46 :: 46 :: slash :: r) with (s_dotdot ++ slash :: r) in E.
+    rewrite split_slash_app_slash in E. cbn in E. injection E as E _. subst k. discriminate.
+Qed.
+
+Lemma targ_segs_nonempty ct : nsegs ct <> [] -> targ_segs ct = nsegs ct.
+Proof.
+  intros H. unfold targ_segs. destruct (str_eqb ct s_dot) eqn:E; [|reflexivity].
+  apply str_eqb_eq in E. subst ct. now cbn in H.
+Qed.
+
+(** Nothing that stays beneath is refused: an entry name made of real
+    elements passes the containment test, for every destination string. *)
+Theorem in_dir_join_good dir ks :
+  forallb goodb ks = true ->
+  in_dir dir (filepath_join [dir; join_slash ks]) = true.
+Proof.
+  intros Hk.
+  assert (Hns : forallb noslashb ks = true /\ forallb normalb ks = true).
+  { clear dir. induction ks as [|x l IH]; [now split|]. cbn in Hk. apply andb_true_iff in Hk as [Hx Hl].
+    destruct (IH Hl) as [A B]. unfold goodb in Hx. apply andb_true_iff in Hx as [H1 H2].
+    cbn. now rewrite H1, H2, A, B. }
+  destruct Hns as [Hns Hnm].
+  assert (Hfinal : forall t', t' = ks -> ks <> [] ->
+            negb (str_eqb (join_slash t') s_dotdot) &&
+            negb (has_prefix (join_slash t') (s_dotdot ++ [slash])) = true).
+  { intros t' -> Hne. destruct ks as [|k rest]; [congruence|].
+    cbn in Hk, Hns. apply andb_true_iff in Hk as [Hk0 _]. apply andb_true_iff in Hns as [_ Hr].
+    destruct (join_good_not_dotdot k rest Hk0 Hr) as [A B]. now rewrite A, B. }
+  unfold in_dir, filepath_rel. rewrite filepath_join2.
+  destruct ks as [|k0 rest0] eqn:Eks.
+  - (* the destination itself *)
+    cbn [join_slash is_empty]. destruct dir as [|c dir']; cbn [is_empty].
+    + reflexivity.
+    + rewrite clean_idem.
+      assert (E : clean ((c :: dir') ++ [slash]) = clean (c :: dir')).
+      { apply clean_eq_of_nsegs; [now apply is_rooted_app|].
+        unfold nsegs. rewrite is_rooted_app by discriminate.
+        rewrite split_slash_snoc_slash. unfold norm. now rewrite norm_from_snoc_empty. }
+      change (c :: dir' ++ [slash]) with ((c :: dir') ++ [slash]).
+      rewrite E, str_eqb_refl. reflexivity.
+  - rewrite <- Eks in *. assert (Hne : ks <> []) by (rewrite Eks; discriminate).
+    assert (Hk0e : is_empty k0 = false).
+    { rewrite Eks in Hk. cbn in Hk. apply andb_true_iff in Hk as [Hk0 _].
+      unfold goodb, normalb in Hk0. destruct k0; [discriminate|reflexivity]. }
+    assert (Hj : is_empty (join_slash ks) = false).
+    { rewrite Eks. destruct k0; [discriminate|]. destruct rest0; reflexivity. }
+    destruct dir as [|c dir']; cbn [is_empty].
+    + rewrite Hj, clean_idem.
+      assert (Ec : nsegs (clean (join_slash ks)) = ks /\ is_rooted (clean (join_slash ks)) = false).
+      { rewrite nsegs_clean, clean_is_rooted.
+        assert (R : is_rooted (join_slash ks) = false).
+        { rewrite Eks. apply is_rooted_join_unrooted.
+          - rewrite Eks in Hns. cbn in Hns. now apply andb_true_iff in Hns as [A _].
+          - exact Hk0e. }
+        split; [|exact R]. unfold nsegs. rewrite R, split_join by assumption.
+        apply (norm_shaped_id false). exists 0%nat, ks. now split. }
+      destruct Ec as [En Er].
+      destruct (str_eqb (clean (join_slash ks)) (clean [])); [reflexivity|].
+      rewrite Er. cbn [clean is_rooted s_dot N.eqb Bool.eqb negb].
+      change (nsegs [46]) with (@nil str).
+      rewrite targ_segs_nonempty by (rewrite En; exact Hne). rewrite En. cbn [strip_common].
+      now apply Hfinal.
+    + set (d := c :: dir').
+      change (c :: dir' ++ slash :: join_slash ks) with (d ++ slash :: join_slash ks).
+      rewrite clean_idem.
+      assert (En : nsegs (clean (d ++ slash :: join_slash ks)) = nsegs (clean d) ++ ks).
+      { rewrite !nsegs_clean. unfold nsegs. rewrite is_rooted_app by discriminate.
+        rewrite split_slash_app_slash, split_join by assumption. now apply norm_app_normal. }
+      assert (Er : is_rooted (clean (d ++ slash :: join_slash ks)) = is_rooted (clean d)).
+      { rewrite !clean_is_rooted. now apply is_rooted_app. }
+      destruct (str_eqb (clean (d ++ slash :: join_slash ks)) (clean d)); [reflexivity|].
+      rewrite Er, Bool.eqb_reflx. cbn [negb].
+      rewrite targ_segs_nonempty by (rewrite En; destruct (nsegs (clean d)); [exact Hne|discriminate]).
+      rewrite En, strip_common_app.
+      now apply Hfinal.
 Qed.
